@@ -135,6 +135,8 @@ class Driver:
                 continue
             if a.get("ok") is not None and bool(rec[4].get("ok")) != a["ok"]:
                 continue
+            if a.get("tag") is not None and rec[4].get("tag") != a["tag"]:
+                continue
             t["count"] += 1
             if t["count"] >= a.get("n", 1):
                 t["done"] = True
